@@ -64,6 +64,56 @@ def check(P: Project, R: Report) -> None:
     R.extra["manager_class"] = ci.qual
     R.extra["store_attribute"] = store
 
+    def _clock_attrs() -> set:
+        """attributes that hold a clock the embedding program may supply: None on the class (or in the constructor) unless a
+        constructor parameter gives one, never stored anywhere else — the wall clock is what is read when it is None"""
+        init_ = P.lookup_method(ci, "__init__")
+        out_ = set()
+        cands = {}
+        for s_ in ci.node.body:
+            tg = s_.targets[0] if isinstance(s_, ast.Assign) and len(s_.targets) == 1 else (s_.target if isinstance(s_, ast.AnnAssign) else None)
+            v = getattr(s_, "value", None)
+            if isinstance(tg, ast.Name) and isinstance(v, ast.Constant) and v.value is None:
+                cands[tg.id] = True
+        iparams = set(init_.params()) if init_ is not None else set()
+        stores = {}
+        for m_ in meths.values():
+            for x in walk_local(m_.node):
+                if isinstance(x, (ast.Assign, ast.AnnAssign)) and getattr(x, "value", None) is not None:
+                    for t in (x.targets if isinstance(x, ast.Assign) else [x.target]):
+                        if isinstance(t, ast.Attribute) and isinstance(t.value, ast.Name) and t.value.id == "self":
+                            stores.setdefault(t.attr, []).append((m_, x.value))
+                elif isinstance(x, (ast.AugAssign, ast.Delete)):
+                    for t in ([x.target] if isinstance(x, ast.AugAssign) else x.targets):
+                        if isinstance(t, ast.Attribute) and isinstance(t.value, ast.Name) and t.value.id == "self":
+                            stores.setdefault(t.attr, []).append((m_, None))
+        for a_ in set(cands) | set(stores):
+            ss = stores.get(a_, [])
+            if not ss and a_ not in cands:
+                continue
+            if all(m_ is init_ and isinstance(v, ast.Name) and v.id in iparams for m_, v in ss) and (a_ in cands or ss):
+                if ss:
+                    out_.add(a_)
+        return out_
+
+    clock_attrs = _clock_attrs()
+    if clock_attrs:
+        R.extra["injectable_clock_attributes"] = sorted(clock_attrs)
+
+    def reads_clock(term: str, an_) -> bool:
+        """the value is one reading of the clock: `time.time()`, or a call without arguments of the manager's injectable clock"""
+        o = an_.origin(term or "").strip("<>")
+        if o == "time.time()":
+            return True
+        try:
+            n_ = ast.parse(o, mode="eval").body
+        except SyntaxError:
+            return False
+        if isinstance(n_, ast.Call) and not n_.args and not n_.keywords:
+            f_ = an_.origin(ast.unparse(n_.func)).strip("<>")
+            return any(f_ == f"self.{a_}" for a_ in clock_attrs)
+        return False
+
     # ------------------------------------------------------------------ effects
     def stmt_event(stmt, st, an):
         evs = []
@@ -139,7 +189,16 @@ def check(P: Project, R: Report) -> None:
         has_uuid = "uuid4()" in full
         bad = []
         probe = ast.parse(full.replace("<", "(").replace(">", ")"), mode="eval").body if has_uuid else tree
+        rejoined = set()
         for n in ast.walk(probe) if probe is not None else []:
+            # `"".join(text.split("-"))` is `text.replace("-", "")`: every other character is kept, in order
+            if (isinstance(n, ast.Call) and isinstance(n.func, ast.Attribute) and n.func.attr == "join" and isinstance(n.func.value, ast.Constant) and isinstance(n.func.value.value, str)
+                    and len(n.args) == 1 and not n.keywords and isinstance(n.args[0], ast.Call) and isinstance(n.args[0].func, ast.Attribute) and n.args[0].func.attr == "split"
+                    and len(n.args[0].args) == 1 and not n.args[0].keywords and isinstance(n.args[0].args[0], ast.Constant) and isinstance(n.args[0].args[0].value, str)):
+                rejoined |= {id(n), id(n.args[0])}
+        for n in ast.walk(probe) if probe is not None else []:
+            if id(n) in rejoined:
+                continue
             if isinstance(n, ast.Subscript):
                 bad.append("slice/index " + ast.unparse(n)[:40])
             if isinstance(n, ast.BinOp) and isinstance(n.op, (ast.Mod, ast.FloorDiv, ast.BitAnd, ast.RShift)):
@@ -178,13 +237,17 @@ def check(P: Project, R: Report) -> None:
                 except SyntaxError:
                     pass
             # the key may be read back from the record just built (`self.sessions[rec.session_id] = rec`): the same value
-            if key == f"{val}.session_id" and isinstance(vdef_node, ast.Call):
+            ret = subst_text(node.value, st) if node.value is not None else "None"
+            rewritten = any(isinstance(x, ast.Attribute) and x.attr == "session_id" and not isinstance(x.ctx, ast.Load) for x in walk_local(cr.node))
+            if isinstance(vdef_node, ast.Call) and not rewritten:
                 kw = {k.arg: k.value for k in vdef_node.keywords if k.arg}
                 k0 = kw.get("session_id") or (vdef_node.args[0] if vdef_node.args else None)
                 if k0 is not None:
-                    key = subst_text(k0, st)
+                    if key == f"{val}.session_id":
+                        key = subst_text(k0, st)
+                    if ret == f"{val}.session_id":  # … and so may the returned id (`return rec.session_id`)
+                        ret = subst_text(k0, st)
             kdef = an.defs.get(key, ("", None))[0]
-            ret = subst_text(node.value, st) if node.value is not None else "None"
             ok_key = "generate_session_id()" in kdef
             ok_ret = ret == key
             ok_val = False
@@ -200,8 +263,8 @@ def check(P: Project, R: Report) -> None:
                     fields.get("session_id") == key
                     and fields.get("client_info") == cparams[0]
                     and fields.get("protocol_version") == cparams[1]
-                    and an.origin(fields.get("created_at") or "").strip("<>") == "time.time()"
-                    and an.origin(fields.get("last_activity") or "").strip("<>") == "time.time()"
+                    and reads_clock(fields.get("created_at"), an)
+                    and reads_clock(fields.get("last_activity"), an)
                 )
             ok = ok_key and ok_ret and ok_val
             detail = f"key from `{kdef}`, returns `{ret}`, record fields {fields}"
@@ -257,6 +320,17 @@ def check(P: Project, R: Report) -> None:
     for st, node in out.ret:
         ret = subst_text(node.value, st) if node.value is not None else "None"
         ok = not st.events and ret in (f"{S}.get({gp})", f"{S}.get({gp}, None)")
+        if not ok and not st.events:
+            # the same lookup spelled `try: return S[k] / except KeyError: return None` or `if k in S: return S[k]; return None`
+            eafp = [t for t in walk_local(g.node) if isinstance(t, ast.Try) and not t.orelse and not t.finalbody and len(t.handlers) == 1 and t.handlers[0].type is not None
+                    and ast.unparse(t.handlers[0].type) == "KeyError" and len(t.body) == 1 and any(isinstance(x, ast.Subscript) and ast.unparse(x) == f"{S}[{gp}]" for x in ast.walk(t.body[0]))
+                    and not any(isinstance(x, ast.Call) for x in ast.walk(t.body[0]))]
+            in_body = any(node in list(walk_local(t.body[0])) or node is t.body[0] for t in eafp)
+            in_handler = any(node in h.body for t in eafp for h in t.handlers)
+            if ret == f"{S}[{gp}]" or an.defs.get(ret, ("", None))[0] == f"{S}[{gp}]":
+                ok = in_body or st.has(f"{gp} in {S}") or any(an.defs.get(ret, ("", None))[1] in list(walk_local(t.body[0])) + [t.body[0]] for t in eafp)
+            elif ret == "None":
+                ok = in_handler or st.has(f"{gp} not in {S}")
         R.ob("R3", "get_session is a pure lookup", ok, f"{g.module.rel}:{node.lineno}", f"returns `{ret}` with effects {list(st.events)}")
     R.ob("R3", "get_session always returns", not out.normal and bool(out.ret), g.where, "")
 
@@ -302,7 +376,7 @@ def check(P: Project, R: Report) -> None:
             if pres is True:
                 if eff == "touch":
                     pre_ = f"touch[{sp}].last_activity="
-                    ok = len(evs) == 1 and evs[0].startswith(pre_) and an.origin(evs[0][len(pre_):]).strip("<>") == "time.time()" and ret == "True"
+                    ok = len(evs) == 1 and evs[0].startswith(pre_) and reads_clock(evs[0][len(pre_):], an) and ret == "True"
                 else:
                     ok = evs == [f"del[{sp}]"] and ret == "True"
             elif pres is False:
@@ -395,10 +469,22 @@ def check(P: Project, R: Report) -> None:
                     sel_ok = False
                     sel_detail = f"the selection loop stops early (`{type(early[0]).__name__.lower()}` at line {early[0].lineno}): sessions after that point are not examined, so some that are idle longer than max_age survive"
                     break
-                if len(s.body) == 1 and isinstance(s.body[0], ast.If) and not s.body[0].orelse and len(s.body[0].body) == 1:
-                    inner = s.body[0].body[0]
+                # (locals computed first — `idle = now - v.last_activity` — are read where the test uses them)
+                pre_ = {}
+                body_ = list(s.body)
+                while len(body_) > 1 and isinstance(body_[0], ast.Assign) and len(body_[0].targets) == 1 and isinstance(body_[0].targets[0], ast.Name) and not any(isinstance(x, (ast.Call, ast.Await)) for x in ast.walk(body_[0].value)):
+                    pre_[body_[0].targets[0].id] = body_[0].value
+                    body_ = body_[1:]
+                if len(body_) == 1 and isinstance(body_[0], ast.If) and not body_[0].orelse and len(body_[0].body) == 1:
+                    inner = body_[0].body[0]
                     if isinstance(inner, ast.Expr) and isinstance(inner.value, ast.Call) and call_name(inner.value).endswith(".append") and ast.unparse(inner.value.args[0]) == k:
-                        cond = norm_lit(s.body[0].test, True)
+                        import copy as _c0
+
+                        class _S0(ast.NodeTransformer):
+                            def visit_Name(self, n):
+                                return _c0.deepcopy(pre_[n.id]) if isinstance(n.ctx, ast.Load) and n.id in pre_ else n
+
+                        cond = norm_lit(_S0().visit(_c0.deepcopy(body_[0].test)), True)
                         now_names = [x.targets[0].id for x in walk_local(ce.node) if isinstance(x, ast.Assign) and isinstance(x.targets[0], ast.Name) and ast.unparse(x.value) == "time.time()"]
                         accepted = accepted_for(now_names + ["time.time()"], v)
                         sel_ok = cond in accepted
@@ -451,6 +537,7 @@ def check(P: Project, R: Report) -> None:
     R.need(sel_var is not None, "cleanup_expired: the selection of expired keys is written in a shape this rule cannot read")
     R.ob("R4", "expired = keys with now - last_activity > max_age", sel_ok, ce.where, sel_detail, sample=f"R4 cleanup_expired: {sel_detail}")
     del_ok = single_pass is not None
+    counted_as = set()
     # the selection under its other names (`stale = selected`, what a helper's result becomes when read at its call site)
     sel_names = {sel_var}
     grew_ = True
@@ -466,12 +553,21 @@ def check(P: Project, R: Report) -> None:
         if isinstance(s, ast.For) and ast.unparse(s.iter) in sel_names and isinstance(s.target, ast.Name):
             if len(s.body) == 1 and isinstance(s.body[0], ast.Delete) and [ast.unparse(t) for t in s.body[0].targets] == [f"{S}[{s.target.id}]"]:
                 del_ok = True
+            elif (len(s.body) == 2 and isinstance(s.body[0], ast.Delete) and [ast.unparse(t) for t in s.body[0].targets] == [f"{S}[{s.target.id}]"] and isinstance(s.body[1], ast.AugAssign)
+                  and isinstance(s.body[1].op, ast.Add) and isinstance(s.body[1].target, ast.Name) and ast.unparse(s.body[1].value) == "1" and not s.orelse):
+                # … counting as it goes: one per deletion, from 0, nothing else touches the counter
+                counter_ = s.body[1].target.id
+                stores_ = [x for x in walk_local(ce.node) if isinstance(x, ast.Name) and x.id == counter_ and isinstance(x.ctx, ast.Store)]
+                inits_ = [x for x in walk_local(ce.node) if isinstance(x, ast.Assign) and len(x.targets) == 1 and ast.unparse(x.targets[0]) == counter_]
+                if len(stores_) == 2 and len(inits_) == 1 and isinstance(inits_[0].value, ast.Constant) and inits_[0].value.value == 0 and type(inits_[0].value.value) is int:
+                    del_ok = True
+                    counted_as.add(counter_)
     R.ob("R4", "deletes exactly the selected keys", del_ok, ce.where, f"no `for k in {sel_var}: del {S}[k]` loop")
     # no other store effect on any path, and the count is returned
     for st, node in out.ret:
         evs = [e for e in st.events if not e.startswith("del[")]
         ret = ast.unparse(node.value) if node.value is not None else "None"
-        R.ob("R4", "only deletions, returns the count", not evs and (ret in {f"len({x_})" for x_ in sel_names} or (single_pass is not None and ret == single_pass)), f"{ce.module.rel}:{node.lineno}", f"effects {list(st.events)} returns {ret}")
+        R.ob("R4", "only deletions, returns the count", not evs and (ret in {f"len({x_})" for x_ in sel_names} or ret in counted_as or (single_pass is not None and ret == single_pass)), f"{ce.module.rel}:{node.lineno}", f"effects {list(st.events)} returns {ret}")
     R.ob("R4", "cleanup cannot fall off the end", not out.normal and bool(out.ret), ce.where, "")
 
     # ------------------------------------------------------------------ R5
